@@ -288,6 +288,38 @@ class Fn(object):
             return self.nodes[s].get('v')
         return None
 
+    # -- role helpers: find variables by structure instead of by name ----------------------------------------
+    def P(self, i):
+        """name of the i-th parameter"""
+        if i >= len(self.params):
+            raise AnalysisBroken('%s: parameter %d no longer exists' % (self.name, i))
+        return self.params[i]['name']
+
+    def local_where(self, pred):
+        """names of locals whose initialiser / assigned value satisfies pred(key of rhs, rhs node)"""
+        out = []
+        for nid, d, rhs, op, lhs in self.assignments():
+            if d and rhs is not None and not d.startswith('this.') and op in ('init', '='):
+                try:
+                    if pred(self.key(rhs), rhs):
+                        n = d.split(':')[-1]
+                        if n not in out:
+                            out.append(n)
+                except Exception:
+                    pass
+        return out
+
+    def outarg(self, callee_suffix, idx):
+        """name of the variable whose address is passed as argument idx to the first call of callee"""
+        for c in self.all('CallExpr', 'CXXMemberCallExpr'):
+            v = self.nodes[c]
+            if (v.get('callee') or '').endswith(callee_suffix) and len(v.get('args', [])) > idx:
+                a = self.nodes.get(self.strip(v['args'][idx]), {})
+                if a.get('k') == 'UnaryOperator' and a.get('op') == '&':
+                    return self.key(a['ch'][0])
+                return self.key(v['args'][idx])
+        return None
+
     def is_this_field(self, nid, name=None):
         nid = self.strip(nid)
         v = self.nodes.get(nid, {})
@@ -339,7 +371,11 @@ class Fn(object):
             args = ','.join(self.key(a, depth + 1) for a in v.get('args', []))
             return 'new %s(%s)' % ((v.get('cls') or '?'), args) if False else '%s{%s}' % (v.get('cls', '?'), args)
         if k in ('BinaryOperator', 'CompoundAssignOperator'):
-            return '(%s %s %s)' % (self.key(v['lhs'], depth + 1), v['op'], self.key(v['rhs'], depth + 1))
+            lk, rk, op = self.key(v['lhs'], depth + 1), self.key(v['rhs'], depth + 1), v['op']
+            # canonical operand order: constants to the right of comparisons (`0 == x` reads `x == 0`)
+            if op in CMP_MIRROR and lk.startswith('#') and not rk.startswith('#'):
+                lk, rk, op = rk, lk, CMP_MIRROR[op]
+            return '(%s %s %s)' % (lk, op, rk)
         if k == 'UnaryOperator':
             ch = v.get('ch', [])
             inner = self.key(ch[0], depth + 1) if ch else '?'
